@@ -11,6 +11,29 @@ MUT = "/tmp/c18mut"
 HERE = os.path.dirname(os.path.dirname(os.path.abspath(__file__)))
 
 MUTATIONS = {
+    # the repairs, undone one at a time
+    "revert-51c85bfb-entails": ("src/policy/semantic.rs",
+        """        match (self.normalized(), other.normalized()) {
+            (Self::Unsatisfiable, _) => Some(true),
+            (Self::Trivial, Self::Trivial) => Some(true),
+            (Self::Trivial, _) => Some(false),
+            (_, Self::Unsatisfiable) => Some(false),
+            (a_norm, b_norm) => {
+""",
+        """        match (self, other) {
+            (Self::Unsatisfiable, _) => Some(true),
+            (Self::Trivial, Self::Trivial) => Some(true),
+            (Self::Trivial, _) => Some(false),
+            (_, Self::Unsatisfiable) => Some(false),
+            (a, b) => {
+                let (a_norm, b_norm) = (a.normalized(), b.normalized());
+"""),
+    "revert-780a529d-and-2": ("src/policy/mod.rs",
+        "match Threshold::new(semantic_subs.len(), semantic_subs) {",
+        "match Threshold::new(2, semantic_subs) {"),
+    "revert-b588aa3a-timelocks": ("src/policy/concrete.rs",
+        "infos.push(if satisfiable { info } else { TimelockInfo::default() });",
+        "infos.push(info);"),
     "norm-no-trivial-sub": ("src/policy/semantic.rs",
         "let m = thresh.k().saturating_sub(trivial_count); // satisfy all trivial",
         "let m = thresh.k(); // MUT"),
@@ -51,8 +74,8 @@ MUTATIONS = {
         "|| (acc.cltv_with_height && t.cltv_with_time);",
         ";"),
     "lift-or-2": ("src/policy/mod.rs",
-        "Semantic::Thresh(Threshold::new(1, semantic_subs).unwrap())",
-        "Semantic::Thresh(Threshold::new(2, semantic_subs).unwrap())"),
+        "match Threshold::new(1, semantic_subs) {",
+        "match Threshold::new(2, semantic_subs) {"),
     "nkeys-counts-hashes": ("src/policy/semantic.rs",
         ".filter(|policy| matches!(policy, Self::Key(..)))",
         ".filter(|policy| matches!(policy, Self::Key(..) | Self::Sha256(..)))"),
